@@ -154,6 +154,21 @@ def corpus():
                                 ['set', 1, 1, {'a': 2}], ['set', 0, 2, {'a': 2}], ['set', 2, 1, {'a': 2}], ['commit'],
                                 ['del', 1, 1], ['commit']],
                  fixed_target=[1, 1, 'first', ['article', 'article.labels', 'article.labels.articles']]),
+            # a tag that moved from article 1 to article 2; both articles are reverted by one call (article 1 directly,
+            # article 2 through the shared label), the old owner first: the tag must come back to article 1
+            dict(cfg=cfg, prog=[['add', 0, 1, {'a': 1}], ['add', 0, 2, {'a': 1}], ['add', 2, 1, {'a': 1}], ['add', 1, 1, {'a': 1}],
+                                ['link', 1, 1], ['link', 2, 1], ['tagto', 1, 1], ['commit'],
+                                ['tagto', 1, 2], ['commit']],
+                 fixed_target=[0, 1, 'first', ['tags', 'labels.articles.tags']]),
+            dict(cfg=cfg, prog=[['add', 0, 1, {'a': 1}], ['add', 0, 2, {'a': 1}], ['add', 2, 1, {'a': 1}], ['add', 1, 1, {'a': 1}],
+                                ['link', 1, 1], ['link', 2, 1], ['tagto', 1, 1], ['commit'],
+                                ['tagto', 1, 2], ['commit']],
+                 fixed_target=[2, 1, 'first', ['articles', 'articles.tags']]),
+            dict(cfg=dict(cfg, autoflush=True),
+                 prog=[['add', 0, 1, {'a': 1}], ['add', 0, 2, {'a': 1}], ['add', 2, 1, {'a': 1}], ['add', 1, 1, {'a': 1}],
+                       ['link', 1, 1], ['link', 2, 1], ['tagto', 1, 1], ['commit'],
+                       ['tagto', 1, 2], ['commit']],
+                 fixed_target=[0, 1, 'first', ['tags', 'labels.articles.tags']]),
             dict(cfg=cfg, prog=base + [['set', 0, 1, {'a': 2}], ['commit']], fixed_target=[0, 1, 'first', []], again=True),
             dict(cfg=cfg, prog=base + [['set', 0, 1, {'a': 2}], ['commit']], fixed_target=[0, 1, 'first', []], pending_delete=True),
             dict(cfg=cfg, prog=base + [['tagto', 1, 1], ['commit'], ['set', 0, 1, {'a': 2}], ['commit']],
@@ -177,7 +192,7 @@ def choose_target(case, snap):
         return None
     if case.get('fixed_target'):
         tab, key, which, rels = case['fixed_target']
-        cand = sorted([r for r in rows if r['tab'] == tab and r['key'] == [key]], key=lambda r: r['tx'])
+        cand = sorted([r for r in snap['vt'] if r['tab'] == tab and r['key'] == [key]], key=lambda r: r['tx'])
         if not cand:
             return None
         if which == 'del':
